@@ -8,6 +8,7 @@ import (
 	"strings"
 	"sync"
 	"sync/atomic"
+	"time"
 
 	"github.com/fiorix/go-diameter/v4/diam"
 )
@@ -26,6 +27,7 @@ func init() {
 			{Name: "events", Weight: 5, Bubble: true, Run: func(e *Env) { c14Run(e, nil) }},
 			{Name: "watchdog-client", Weight: 1, Bubble: true, Run: func(e *Env) { c13Client(e, true) }},
 			{Name: "sctp-association", Weight: 1, Bubble: true, Run: c14Sctp},
+			{Name: "read-timeout-with-slow-handler", Weight: 1, Bubble: true, Run: c14ReadTimeout},
 			{Name: "sweep-events", Bubble: true, Run: c14Sweep, SweepN: c14SweepN, Exhaustive: true,
 				SweepNote: "all sequences of length <= 6 over the 7 event kinds {deliver-message, deliver-byte, cn-handler(next message), cn-task, terminate(kind by case), release-one, unyield-one} x 4 termination kinds, on a 3-message workload with yield sites enabled"},
 		},
@@ -34,12 +36,12 @@ func init() {
 }
 
 type cnMsg struct {
-	bytes []byte
-	start int
-	cn    bool // handler requests CloseNotify
-	park  bool
-	close bool // handler closes the connection
-	bad   bool
+	bytes  []byte
+	start  int
+	cn     bool // handler requests CloseNotify
+	park   bool
+	close  bool // handler closes the connection
+	bad    bool
 	answer bool   // handler writes an answer ...
 	wfault string // ... whose transport write fails this way ("" = succeeds)
 	wafter int
@@ -52,27 +54,27 @@ type cnChan struct {
 }
 
 type cnWorld struct {
-	e      *Env
-	sc     *SimConn
-	lis    *SimListener
-	conn   diam.Conn
-	msgs   []*cnMsg
-	stream []byte
-	sent   int
-	term   string
+	e        *Env
+	sc       *SimConn
+	lis      *SimListener
+	conn     diam.Conn
+	msgs     []*cnMsg
+	stream   []byte
+	sent     int
+	term     string
 	termDone bool
 
-	mu      sync.Mutex
-	chans   []cnChan
-	entered []int
-	parked  []chan struct{}
-	yielded []*yieldPark
-	yieldsOff atomic.Bool
-	closing atomic.Bool
-	localClosed bool
+	mu           sync.Mutex
+	chans        []cnChan
+	entered      []int
+	parked       []chan struct{}
+	yielded      []*yieldPark
+	yieldsOff    atomic.Bool
+	closing      atomic.Bool
+	localClosed  bool
 	cnBeforeTerm bool
-	forcedCN map[int]bool
-	nValid int
+	forcedCN     map[int]bool
+	nValid       int
 }
 
 func (w *cnWorld) terminated() bool { return w.sc.Closed() || w.sc.EndSeen() }
@@ -736,4 +738,103 @@ func c14Sweep(e *Env) {
 	}
 	e.NonTrivial()
 	c14Run(e, seq)
+}
+
+// c14ReadTimeout: Server.ReadTimeout bounds the wait for (and the reading of) a request. With
+// CloseNotify requested, the library reads the transport in the background; a handler that runs
+// for longer than the timeout must not make that background read give up on a live connection:
+// the channel stays open, the transport stays open, later requests are served.
+func c14ReadTimeout(e *Env) {
+	t := e.T
+	e.TrustWait = false
+	T := []time.Duration{100 * time.Millisecond, 2 * time.Second, 30 * time.Second}[t.Draw(3)]
+	lis := newSimListener(e)
+	mux := diam.NewServeMux()
+	var mu sync.Mutex
+	var entered []string
+	var cn <-chan struct{}
+	var gate chan struct{}
+	cnAt := t.Draw(2) // which message's handler asks for CloseNotify
+	mux.HandleFunc("ALL", func(c diam.Conn, m *diam.Message) {
+		tag := string(m.AVP[0].Data.Serialize())
+		mu.Lock()
+		entered = append(entered, tag)
+		if tag == fmt.Sprintf("m%d", cnAt) {
+			cn = c.(diam.CloseNotifier).CloseNotify()
+		}
+		var g chan struct{}
+		if tag == "m1" {
+			g = make(chan struct{})
+			gate = g
+			e.ParkBegin(true)
+		}
+		mu.Unlock()
+		if g != nil {
+			<-g
+		}
+		a := m.Answer(2001)
+		a.WriteTo(c)
+	})
+	srv := &diam.Server{Handler: mux, Dict: simDict(), ReadTimeout: T}
+	go srv.Serve(lis)
+	sc := newSimConn(e, "c0", drawAddr(t, 3868), drawAddr(t, 44001))
+	lis.Connect(sc)
+	req := func(tag string, hbh uint32) []byte {
+		return RefMsg{Cmd: 900, Flags: 0x80, HbH: hbh, E2E: hbh, AVPs: []RefAVP{{Code: avpSimOctets, Data: []byte(tag)}}}.Bytes()
+	}
+	release := func() {
+		mu.Lock()
+		g := gate
+		gate = nil
+		mu.Unlock()
+		if g != nil {
+			e.ParkEnd(true)
+			close(g)
+			e.Quiesce()
+		}
+	}
+	defer func() {
+		release()
+		sc.EndRead(io.EOF, false)
+		lis.Close()
+		e.Quiesce()
+	}()
+	e.Quiesce()
+	sc.Deliver(req("m0", 1))
+	e.Quiesce()
+	e.Advance(T / 4)
+	e.Quiesce()
+	sc.Deliver(req("m1", 2))
+	e.Quiesce()
+	mu.Lock()
+	parked, ch := gate != nil, cn
+	mu.Unlock()
+	if !parked || ch == nil {
+		e.Fail("C14/messages-lost-duplicated-or-reordered", "two requests were sent within the read timeout; handlers saw %v", entered)
+		return
+	}
+	// the handler of m1 takes its time: longer than ReadTimeout
+	slow := []time.Duration{T + T/2, 3 * T}[t.Draw(2)]
+	if !e.Quiesce() {
+		e.Fail("C14/frozen/read-timeout", "a library goroutine waits on a lock while a handler runs")
+		return
+	}
+	e.Advance(slow)
+	e.Quiesce()
+	e.Act("slow-handler", "T=%v handler ran %v, CloseNotify requested in m%d", T, slow, cnAt)
+	e.Probe("handler-slower-than-read-timeout")
+	e.NonTrivial()
+	if isClosed(ch) || sc.Closed() {
+		e.Fail("C14/closed-while-alive/read-timeout", "Server.ReadTimeout=%v, CloseNotify requested, a handler has been running for %v: the peer is alive and sent nothing wrong, yet the CloseNotify channel is closed=%v and the transport is closed=%v", T, slow, isClosed(ch), sc.Closed())
+		return
+	}
+	release()
+	sc.Deliver(req("m2", 3))
+	e.Quiesce()
+	mu.Lock()
+	got := strings.Join(entered, ",")
+	mu.Unlock()
+	if got != "m0,m1,m2" {
+		e.Fail("C14/messages-lost-duplicated-or-reordered", "requesting CloseNotify must not lose inbound messages: the peer sent m0, m1, m2 (each within the read timeout of the previous answer); handlers saw %s", got)
+	}
 }
